@@ -209,11 +209,25 @@ pub fn run_case(cx: &mut Ctx, mixed_kinds: bool) {
         let mut order: Vec<usize> = (0..specs.len()).collect();
         rng.shuffle(&mut order);
         let visit_log = std::sync::Arc::new(std::sync::Mutex::new(Vec::new()));
+        // every second round after the first registers the same metrics bundled: runs of one to three of them
+        // become one hand-written collector (several families from one collect(), empty ones anywhere among them)
+        let mut groups: Vec<Vec<usize>> = Vec::new();
+        let bundled = round >= 1 && rng.chance(1, 2);
+        let mut at = 0;
+        while at < order.len() {
+            let n = if bundled { 1 + rng.usize_below(3) } else { 1 };
+            groups.push(order[at..(at + n).min(order.len())].to_vec());
+            at += n;
+        }
+        if bundled {
+            cx.part.count("registrations_as_bundled_collectors", 1);
+        }
         let build_and_gather = || -> Result<Vec<prometheus::proto::MetricFamily>, String> {
             let reg = regspec.build().map_err(|e| format!("registry refused: {}", e))?;
-            for i in &order {
-                let c = Logged { inner: built[*i].boxed(), idx: *i, log: visit_log.clone() };
-                reg.register(Box::new(c)).map_err(|e| format!("register {} refused: {}", specs[*i].name, e))?;
+            for g in &groups {
+                let mut parts: Vec<Box<dyn prometheus::core::Collector>> = g.iter().map(|i| Box::new(Logged { inner: built[*i].boxed(), idx: *i, log: visit_log.clone() }) as Box<dyn prometheus::core::Collector>).collect();
+                let c: Box<dyn prometheus::core::Collector> = if parts.len() == 1 { parts.pop().unwrap() } else { Box::new(TwoInOne { parts }) };
+                reg.register(c).map_err(|e| format!("register {:?} refused: {}", g.iter().map(|i| specs[*i].name.clone()).collect::<Vec<_>>(), e))?;
             }
             Ok(reg.gather())
         };
